@@ -14,7 +14,8 @@ GENERIC = {"memset", "memcpy", "memmove", "memcmp", "svt_memcpy_small", "svt_mem
            "__interceptor_malloc", "__interceptor_free", "__interceptor_calloc", "__interceptor_posix_memalign",
            "operator new", "operator delete", "pthread_mutex_lock", "pthread_mutex_unlock", "__interceptor_strlen",
            "strlen", "printf_common", "vfprintf", "fprintf", "fwrite", "__interceptor_fwrite", "read", "fread",
-           "__interceptor_fread", "__interceptor_read"}
+           "__interceptor_fread", "__interceptor_read", "generate_padding_t", "generate_padding_b", "pad_row",
+           "xx_loadu_128", "xx_storeu_128", "xx_load_128", "xx_store_128", "xx_loadl_64", "xx_storel_64"}
 
 _benign = None
 
